@@ -104,7 +104,8 @@ def run(ctx):
     if b:
         o = fl.ret_origin(prog, b)
         ok = o == ("param", 2, ())
-        ctx.check(ok, "C05-b", b.key, "returns the error it was given", "close_if_needed returns %s, not its argument" % fl.fmt(o), "")
+        unit = b.locals[0]["ty"] == "()"      # borrowing form: nothing is handed back, the callers keep the error they got from the cell
+        ctx.check(ok or unit, "C05-b", b.key, "returns the error it was given (or nothing)", "close_if_needed returns %s, not its argument" % fl.fmt(o), "")
         if ok:
             passthrough[b.key] = 1
     conv_free = CEC + "convert_to_connection_error"
